@@ -182,6 +182,9 @@ type TCPRigOpts struct {
 	Tee       service.ServiceMetrics // real collectors to tee into (optional)
 	ListenIP  net.IP                 // default: wildcard dual-stack
 	SSMetrics service.ShadowsocksConnMetrics
+	// CloseAfterAccepts > 0: the accept function closes the listener right after it has obtained
+	// its N-th connection, before handing the connection to StreamServe.
+	CloseAfterAccepts int
 }
 
 type TCPRig struct {
@@ -224,7 +227,11 @@ func StartTCPRig(keys []KeySpec, o TCPRigOpts) *TCPRig {
 		rig.mu.Lock()
 		rig.conns[rec.Remote] = rec
 		rig.order = append(rig.order, rec)
+		n := len(rig.order)
 		rig.mu.Unlock()
+		if o.CloseAfterAccepts > 0 && n == o.CloseAfterAccepts {
+			ln.Close()
+		}
 		if o.Raw {
 			return &rawTagged{TCPConn: c, rec: rec}, nil
 		}
@@ -334,6 +341,9 @@ type TargetHub struct {
 	// Unexpected records connections to addresses for which no script is registered.
 	Unexpected []string
 	Accepted   atomic.Int64
+	// Open counts target connections whose script is still running (scripts end when the server
+	// closes or resets its side).
+	Open atomic.Int64
 }
 
 func StartTargetHub(port int) *TargetHub {
@@ -363,7 +373,11 @@ func StartTargetHub(port int) *TargetHub {
 				c.Close()
 				continue
 			}
-			go s(&TargetConn{TCPConn: c, Accepted: time.Now()})
+			h.Open.Add(1)
+			go func() {
+				defer h.Open.Add(-1)
+				s(&TargetConn{TCPConn: c, Accepted: time.Now()})
+			}()
 		}
 	}()
 	return h
